@@ -262,6 +262,55 @@ MUTANTS = [
          new="""            if args.inject_target >= len(stacked_pickled):
                 stacked_pickled[0].dump(sys.stdout.buffer)
                 sys.stderr.write("""),
+    # ---- C11
+    dict(prop="C11", name="shallow-copy(revert FX8)", file="fickling/ml.py",
+         old="        self.allowlist = {module: dict(names) for module, names in ML_ALLOWLIST.items()}",
+         new="        self.allowlist = dict(ML_ALLOWLIST)"),
+    dict(prop="C11", name="additions-accumulate-on-class", file="fickling/ml.py",
+         old="""        if also_allow:
+            for allowed_import in also_allow:""",
+         new="""        FicklingMLUnpickler._extra = getattr(FicklingMLUnpickler, "_extra", set()) | set(also_allow or ())
+        also_allow = sorted(FicklingMLUnpickler._extra)
+        if also_allow:
+            for allowed_import in also_allow:"""),
+    dict(prop="C11", name="new-module-additions-written-to-global", file="fickling/ml.py",
+         old="""                else:
+                    self.allowlist[module] = {name: "Import explicitly allowed by user"}""",
+         new="""                else:
+                    ML_ALLOWLIST[module] = {name: "Import explicitly allowed by user"}
+                    self.allowlist[module] = ML_ALLOWLIST[module]"""),
+    dict(prop="C11", name="loads-hook-ignores-also-allow", file="fickling/hook.py",
+         old="        return FicklingMLUnpickler(io.BytesIO(data), also_allow=also_allow, **kwargs).load(*args)",
+         new="        return FicklingMLUnpickler(io.BytesIO(data), **kwargs).load(*args)"),
+    dict(prop="C11", name="find-class-checks-module-only", file="fickling/ml.py",
+         old="        elif name not in self.allowlist[module]:",
+         new="        elif name not in self.allowlist[module] and module != 'collections':"),
+    # ---- C12
+    dict(prop="C12", name="exit-restores-import-time-original", file="fickling/context.py",
+         old="        pickle.load = self.original_pickle_load",
+         new="        pickle.load = hook._original_pickle_load"),
+    dict(prop="C12", name="exit-does-not-restore", file="fickling/context.py",
+         old="        pickle.load = self.original_pickle_load",
+         new="        pass"),
+    dict(prop="C12", name="remove-hook-forgets-_pickle.loads", file="fickling/hook.py",
+         old="""    pickle.loads = _original_pickle_loads
+    _pickle.loads = _original_pickle_loads""",
+         new="""    pickle.loads = _original_pickle_loads"""),
+    dict(prop="C12", name="remove-hook-restores-loads-to-load", file="fickling/hook.py",
+         old="""    pickle.loads = _original_pickle_loads
+    _pickle.loads = _original_pickle_loads""",
+         new="""    pickle.loads = _original_pickle_load
+    _pickle.loads = _original_pickle_loads"""),
+    dict(prop="C12", name="enter-does-not-arm", file="fickling/context.py",
+         old="""        hook.run_hook()
+        return self""",
+         new="""        return self"""),
+    dict(prop="C12", name="exit-swallows-exceptions", file="fickling/context.py",
+         old="        pickle.load = self.original_pickle_load",
+         new="        pickle.load = self.original_pickle_load\n        return True"),
+    dict(prop="C12", name="context-captures-original-at-enter-of-outermost-only", file="fickling/context.py",
+         old="        self.original_pickle_load = pickle.load",
+         new="        self.original_pickle_load = pickle.load if pickle.load is not loader.load else hook._original_pickle_load"),
     # ---- C14
     dict(prop="C14", name="delitem-keeps-ast", file="fickling/fickle.py",
          old="""        del self._opcodes[index]
